@@ -6,7 +6,7 @@ import FeatherModel.Model.RawLayout
 `harness/src/rawgolden.rs` builds one `raw_class_file::ClassFile` addressing every field of every struct and variant
 *by name*, each with a value distinct within its struct.  This is the same class as a generic value whose fields are
 listed in the order in which the JVMS lists the items (frozen from the conversion of that class at a time when the
-theorem `Thm.C20.layouts_jvms_partial` certified that the translated layouts list their fields in JVMS order).
+theorem `Thm.C20.layouts_jvms` certified that the translated layouts list their fields in JVMS order).
 The op `raw-golden` compares the implementation's conversion and bytes with this value and what the model writes for
 it: exchanging two fields of equal width in `lib.rs` changes the implementation's answer but not the model's.
 Do not regenerate this file from a mutated tree.
